@@ -28,7 +28,9 @@ import (
 	"fmt"
 	"math"
 	"math/rand"
+	"strconv"
 	"strings"
+	"time"
 
 	"github.com/hydraide/hydraide/app/core/hydra/swamp"
 	"github.com/hydraide/hydraide/app/core/hydra/swamp/treasure"
@@ -754,6 +756,9 @@ func c13Gen(rng *rand.Rand, tier string, w *bufio.Writer) {
 		"ap 81a1749281a16101a161 - rmval:74:de0001a16101",                      // container value with a non-minimal header
 		"ap 81a17490 - app:745b5d:dc000101 rmval:74:9101",                      // spliced non-minimal array, removed by its canonical form
 		"ap 81a17490 - app:745b5d:9101 rmval:74:9101",
+		"ap 80 - set:78:81a16101 set:782e61:02",                                // into a value SET earlier in the same patch
+		"ap 80 - app:745b5d:9101 app:745b305d5b5d:02",                          // into an array APPENDed earlier
+		"ap 80 - merge:6d:81a16181a16201 inc:6d2e612e62:01",                    // into a MERGEd field value
 		"ap 81a16d81a16101 - merge:6d:82a16102a16203",                          // MERGE overrides a, adds b
 		"ap 80 - set:612e622e63:01",                                            // auto-create a.b.c
 		"ap 80 - app:612e625b5d:01",                                            // auto-create a.b[]
@@ -766,27 +771,38 @@ func c13Gen(rng *rand.Rand, tier string, w *bufio.Writer) {
 		"parse -",
 		"parse 81d9206161616161616161616161616161616161616161616161616161616161616101", // str8 key of length 32
 		// PatchFields: every status of classifyPatchError and of the content / prefix checks
-		"pf absent 1 - - set:61:01",                    // CREATED from the empty-map seed
-		"pf absent 0 - - set:61:01",                    // KEY_NOT_FOUND
-		"pf absent 1 81a17801 - inc:78:02",             // CREATED from a seed
-		"pf absent 1 c1 - set:61:01",                   // invalid seed → TYPE_MISMATCH
-		"pf absent 1 01 - set:61:01",                   // non-map seed: SET on a leaf root → TYPE_MISMATCH
-		"pf b:c70081a17801 0 - - set:79:02",            // PATCHED
-		"pf b:c70081a17801 1 c1 - set:79:02",           // existing key, invalid seed still rejected
-		"pf b:c70081a17801 0 - eq:78:02 set:79:02",     // CONDITION_NOT_MET
-		"pf b:c70081a17801 0 - - inc:78:a161",          // TYPE_MISMATCH
-		"pf b:c70081a17801 0 - - set:782e:01",          // malformed path → PATH_INVALID
-		"pf b:c70081a17801 0 - - set:79:",              // ErrInvalidOp (empty value) → PATH_INVALID
-		"pf b:c70081a17801 0 - - unk:79:01",            // unknown op kind → PATH_INVALID
-		"pf b:c70081a17801 0 - unk:78:01 set:79:01",    // unknown condition op → PATH_INVALID
-		"pf b:c7008101a17801 0 - - set:79:02",          // non-string key body → ENCODING_NOT_SUPPORTED
-		"pf b:c70081a178 0 - - set:79:02",              // truncated body → ENCODING_NOT_SUPPORTED
-		"pf b:81a17801 0 - - set:79:02",                // no magic prefix → ENCODING_NOT_SUPPORTED
-		"pf b:c7 0 - - set:79:02",                      // one byte only
-		"pf b:c70181a17801 0 - - set:79:02",            // wrong second prefix byte
-		"pf other 0 - - set:79:02",                     // not a ByteArray → TYPE_MISMATCH
-		"pf b:c70081a17801 0 - - set:79:c1",            // malformed value
-		"pf b:c70081a166cb7ff8000000000000 0 - eq:66:cb7ff8000000000000 set:7a:01", // NaN condition
+		"pf absent 1 - - - set:61:01",                    // CREATED from the empty-map seed
+		"pf absent 0 - - - set:61:01",                    // KEY_NOT_FOUND
+		"pf absent 1 81a17801 - - inc:78:02",             // CREATED from a seed
+		"pf absent 1 c1 - - set:61:01",                   // invalid seed → TYPE_MISMATCH
+		"pf absent 1 01 - - set:61:01",                   // non-map seed: SET on a leaf root → TYPE_MISMATCH
+		"pf b:c70081a17801 0 - - - set:79:02",            // PATCHED
+		"pf b:c70081a17801 1 c1 - - set:79:02",           // existing key, invalid seed still rejected
+		"pf b:c70081a17801 0 - - eq:78:02 set:79:02",     // CONDITION_NOT_MET
+		"pf b:c70081a17801 0 - - - inc:78:a161",          // TYPE_MISMATCH
+		"pf b:c70081a17801 0 - - - set:782e:01",          // malformed path → PATH_INVALID
+		"pf b:c70081a17801 0 - - - set:79:",              // ErrInvalidOp (empty value) → PATH_INVALID
+		"pf b:c70081a17801 0 - - - unk:79:01",            // unknown op kind → PATH_INVALID
+		"pf b:c70081a17801 0 - - unk:78:01 set:79:01",    // unknown condition op → PATH_INVALID
+		"pf b:c7008101a17801 0 - - - set:79:02",          // non-string key body → ENCODING_NOT_SUPPORTED
+		"pf b:c70081a178 0 - - - set:79:02",              // truncated body → ENCODING_NOT_SUPPORTED
+		"pf b:81a17801 0 - - - set:79:02",                // no magic prefix → ENCODING_NOT_SUPPORTED
+		"pf b:c7 0 - - - set:79:02",                      // one byte only
+		"pf b:c70181a17801 0 - - - set:79:02",            // wrong second prefix byte
+		"pf other 0 - - - set:79:02",                     // not a ByteArray → TYPE_MISMATCH
+		"pf b:c70081a17801 0 - - - set:79:c1",            // malformed value
+		"pf b:c70081a166cb7ff8000000000000 0 - - eq:66:cb7ff8000000000000 set:7a:01", // NaN condition
+		// PatchFieldsMeta: stamped on success only; Created* only on create; ClearExpiredAt beats SetExpiredAt
+		"pf absent 1 - ua,ub=626f62,ca,cb=616c,exp=1900000000000000000 - set:61:01",   // create with every field
+		"pf b:c70081a17801 0 - ua,ub=626f62,ca,cb=616c,exp=1900000000000000000 - set:79:02", // patch: Created* ignored
+		"pf b:c70081a17801@1800000000000000000 0 - exp=1900000000000000000 - set:79:02",  // slide the TTL forward
+		"pf b:c70081a17801@1800000000000000000 0 - clr - set:79:02",                    // clear the TTL
+		"pf b:c70081a17801@1800000000000000000 0 - clr,exp=1900000000000000000 - set:79:02", // clear wins
+		"pf b:c70081a17801@1800000000000000000 0 - ub=626f62 - del:78:",                 // TTL untouched without exp/clr
+		"pf b:c70081a17801@1800000000000000000 0 - ua,exp=1900000000000000000 eq:78:02 set:79:02", // condition not met: no meta
+		"pf b:c70081a17801@1800000000000000000 0 - ua,clr - inc:78:a161",                // failed op: no meta
+		"pf absent 0 - ua,exp=1900000000000000000 - set:61:01",                          // key not found: nothing created
+		"pf b:c70081a17801 0 - exp=0 - set:79:02",                                       // SetExpiredAt = Unix epoch: stored as 0 (never)
 	} {
 		fmt.Fprintln(w, l)
 	}
@@ -866,7 +882,23 @@ func c13Gen(rng *rand.Rand, tier string, w *bufio.Writer) {
 			} else if rng.Intn(3) == 0 {
 				seed = c13H(body)
 			}
-			fmt.Fprintf(w, "pf %s %d %s %s %s\n", stored, rng.Intn(2), seed, c13Cond(rng, addrs), c13Op(rng, addrs))
+			meta := "-"
+			if rng.Intn(2) == 0 {
+				var ms []string
+				for _, m := range []string{"ua", "ub=" + hex.EncodeToString(c13Bytes(rng, 1+rng.Intn(3))), "ca",
+					"cb=" + hex.EncodeToString(c13Bytes(rng, 1+rng.Intn(3))), fmt.Sprintf("exp=%d", 1700000000000000000+rng.Int63n(1e18)), "clr"} {
+					if rng.Intn(3) == 0 {
+						ms = append(ms, m)
+					}
+				}
+				if len(ms) > 0 {
+					meta = strings.Join(ms, ",")
+				}
+			}
+			if strings.HasPrefix(stored, "b:") && rng.Intn(3) == 0 {
+				stored += fmt.Sprintf("@%d", 1700000000000000000+rng.Int63n(1e18))
+			}
+			fmt.Fprintf(w, "pf %s %d %s %s %s %s\n", stored, rng.Intn(2), seed, meta, c13Cond(rng, addrs), c13Op(rng, addrs))
 		}
 	}
 }
@@ -1154,15 +1186,48 @@ func (p *c13PF) swamp() (swamp.Swamp, error) {
 	return sw, nil
 }
 
+// pf STORED CREATE SEED META COND OP…
+//   STORED = absent | other | b:HEX[@EXPNANOS]          (treasure under the key before the call)
+//   META   = - | comma list of  ua  ub=HEX  ca  cb=HEX  exp=NANOS  clr      (PatchFieldsMeta)
+// reply:   st=N STORED wf=0/1 new=HEX|- exp=NANOS mat=0/1 mby=HEX|- cat=0/1 cby=HEX|-
 func (p *c13PF) run(f []string) string {
 	sw, err := p.swamp()
 	if err != nil {
 		return "rig-error " + err.Error()
 	}
-	ops, ok1 := c13ParseOps(f[5:])
-	cond, ok2 := c13ParseCond(f[4])
+	if len(f) < 6 {
+		return "bad-op"
+	}
+	ops, ok1 := c13ParseOps(f[6:])
+	cond, ok2 := c13ParseCond(f[5])
 	if !ok1 || !ok2 {
 		return "bad-op"
+	}
+	var meta *swamp.PatchFieldsMeta
+	if f[4] != "-" {
+		meta = &swamp.PatchFieldsMeta{}
+		for _, tok := range strings.Split(f[4], ",") {
+			switch {
+			case tok == "ua":
+				meta.SetUpdatedAt = true
+			case tok == "ca":
+				meta.SetCreatedAt = true
+			case tok == "clr":
+				meta.ClearExpiredAt = true
+			case strings.HasPrefix(tok, "ub="):
+				meta.SetUpdatedBy = string(c13Unhex(tok[3:]))
+			case strings.HasPrefix(tok, "cb="):
+				meta.SetCreatedBy = string(c13Unhex(tok[3:]))
+			case strings.HasPrefix(tok, "exp="):
+				n, perr := strconv.ParseInt(tok[4:], 10, 64)
+				if perr != nil {
+					return "bad-op"
+				}
+				meta.SetExpiredAt = time.Unix(0, n)
+			default:
+				return "bad-op"
+			}
+		}
 	}
 	p.n++
 	key := fmt.Sprintf("k%d", p.n)
@@ -1175,19 +1240,29 @@ func (p *c13PF) run(f []string) string {
 		t.Save(g)
 		t.ReleaseTreasureGuard(g)
 	case strings.HasPrefix(f[1], "b:"):
+		spec, exp := f[1][2:], int64(0)
+		if i := strings.IndexByte(spec, '@'); i >= 0 {
+			exp, _ = strconv.ParseInt(spec[i+1:], 10, 64)
+			spec = spec[:i]
+		}
 		t := sw.CreateTreasure(key)
 		g := t.StartTreasureGuard(true)
-		t.SetContentByteArray(g, c13Unhex(f[1][2:]))
+		t.SetContentByteArray(g, c13Unhex(spec))
+		if exp != 0 {
+			t.SetExpirationTime(g, time.Unix(0, exp))
+		}
 		t.Save(g)
 		t.ReleaseTreasureGuard(g)
 	default:
 		return "bad-op"
 	}
-	res, err := sw.PatchFields(key, ops, cond, swamp.PatchFieldsOptions{CreateIfNotExist: f[2] == "1", InitialMsgpackOnCreate: c13Unhex(f[3])})
+	res, err := sw.PatchFields(key, ops, cond, swamp.PatchFieldsOptions{CreateIfNotExist: f[2] == "1",
+		InitialMsgpackOnCreate: c13Unhex(f[3]), Meta: meta})
 	if err != nil {
 		return "error " + err.Error()
 	}
 	stored, wf := "absent", 0
+	exp, mat, cat, mby, cby := int64(0), 0, 0, "-", "-"
 	if t, err := sw.GetTreasure(key); err == nil && t != nil {
 		switch t.GetContentType() {
 		case treasure.ContentTypeVoid:
@@ -1202,12 +1277,20 @@ func (p *c13PF) run(f []string) string {
 		default:
 			stored = "other"
 		}
+		exp = t.GetExpirationTime()
+		if t.GetModifiedAt() != 0 {
+			mat = 1
+		}
+		if t.GetCreatedAt() != 0 {
+			cat = 1
+		}
+		mby, cby = c13H([]byte(t.GetModifiedBy())), c13H([]byte(t.GetCreatedBy()))
 	}
 	echo := "-"
 	if res.NewMsgpack != nil {
 		echo = c13H(res.NewMsgpack)
 	}
-	return fmt.Sprintf("st=%d %s wf=%d new=%s", res.Status, stored, wf, echo)
+	return fmt.Sprintf("st=%d %s wf=%d new=%s exp=%d mat=%d mby=%s cat=%d cby=%s", res.Status, stored, wf, echo, exp, mat, mby, cat, cby)
 }
 
 func c13Run(in *bufio.Scanner, w *bufio.Writer) {
@@ -1270,7 +1353,7 @@ func c13Run(in *bufio.Scanner, w *bufio.Writer) {
 					out = c13CanonNaN(out)
 				}
 				fmt.Fprintf(w, "out %s wf=%d\n", c13H(out), wf)
-			case f[0] == "pf" && len(f) >= 5:
+			case f[0] == "pf" && len(f) >= 6:
 				fmt.Fprintln(w, pf.run(f))
 			default:
 				fmt.Fprintln(w, "bad-op")
